@@ -421,9 +421,9 @@ def run_check(prop, tier, seed, replay=None):
 def sanitizer_sig(err):
     """kind + innermost c-ares function, e.g. `heap-use-after-free:read_answers`"""
     import re
-    m = re.search(r"SUMMARY: \w+Sanitizer: ([\w-]+) (\S+) in (\w+)", err)
+    m = re.search(r"SUMMARY: \w+Sanitizer: ([\w-]+(?: [\w-]+)*?) (/\S+) in (\w+)", err)
     if m:
-        return "%s:%s" % (m.group(1), m.group(3))
+        return "%s:%s" % (m.group(1).replace(" ", "-"), m.group(3))
     m = re.search(r"SUMMARY: \w+Sanitizer: (\d+ byte\(s\) leaked)", err)
     if m:
         f = re.search(r"#\d+ \S+ in (\w+) /repo/src/lib/(?!ares_library_init)", err)
